@@ -217,6 +217,42 @@ def run(ctx):
                 else:
                     ctx.holds("C01.R14", inst, f.where())
 
+    # .. and the binary encoder's own primitives refuse none either (floats: the infinities and NaN are values of the type)
+    encB14 = a.p.cls("io.binary_encoder:BinaryEncoder")
+    reps14 = {
+        "write_int": [-2 ** 31, -1, 0, 1, 2 ** 31 - 1],
+        "write_long": [-2 ** 63, -2 ** 31 - 1, 0, 2 ** 31, 2 ** 63 - 1],
+        "write_float": [0.0, -0.0, 1.5, 3.4028234663852886e38, -3.4028234663852886e38, float("inf"), float("-inf")],
+        "write_double": [0.0, 1.5, 1.7976931348623157e308, float("inf"), float("-inf")],
+        "write_boolean": [True, False],
+    }
+    for mname, reps in reps14.items():
+        m14 = a.p.find_method(encB14, mname) if encB14 is not None else None
+        if m14 is None or len(m14.pos_params) < 2:
+            continue
+        raises = [n for n in walk_local(m14.node) if isinstance(n, ast.Raise)]
+        if not raises:
+            ctx.holds("C01.R14", f"{m14.qualname}: raises nothing of its own", m14.where())
+            continue
+        D = m14.pos_params[1]
+        consts14 = {}
+        for st in m14.mod.tree.body:
+            if isinstance(st, ast.Assign) and len(st.targets) == 1 and isinstance(st.targets[0], ast.Name):
+                fv = a.p.try_fold(m14.mod, st.value, None)
+                if isinstance(fv, (int, float)) and not isinstance(fv, bool):
+                    consts14[st.targets[0].id] = fv
+        for rep in reps:
+            env = dict(consts14)
+            env[D] = rep
+            r = _g.run_chain(list(m14.node.body), env, effects=[])
+            inst = f"{m14.qualname}: {rep!r} is written"
+            if r[0] == "raise":
+                ctx.violation("C01.R14", inst, m14.where(r[1]), f"{m14.qualname}: `{norm(r[1])[:70]}` is reached for datum = {rep!r}", f"{rep!r} is a value of the type (the infinities are IEEE-754 values with an encoding of their own; the range ends are included): a datum that conforms to the schema cannot be encoded")
+            elif r[0] == "unknown":
+                ctx.unrecognised("C01.R14", inst, m14.where(), f"`{norm(r[1])[:80]}` could not be evaluated for datum = {rep!r}")
+            else:
+                ctx.holds("C01.R14", inst, m14.where())
+
     # ---- shared: what is encoded is the datum's own value under the branch / length / index the reader decodes ----
     ctx.borrow("C16", {"C16.R4": "C01.R10", "C16.R5": "C01.R11", "C16.R6": "C01.R12"}, "values of logical types are data like any other: a preparer that stores a different number (rounded to the decimal context, truncated to the fixed size) breaks the round trip of the datum")
     ctx.borrow("C09", {"C09.R3": "C01.R13"}, "a datum that conforms to a union must be encodable: the search has to be able to select every conforming branch (record branches that share no field name with the datum included), in schema order")
